@@ -243,6 +243,11 @@ def main():
         cross_problem = cross[0]
 
     fns = sorted(total.fns)
+    tmpl_note = ''
+    if any(c.get('gen') in ('tmpl', 'atmpl') or 'ta' in c for c in spaces):
+        tmpl_note = (' Plus sentence-template spaces (gen=tmpl / atmpl, listed under spaces): concrete paragraph-sized '
+                     'texts in which the marked positions are symbolic characters of a whole UTF-8 class (or fork over '
+                     'a stated alphabet), width / indents / options symbolic as elsewhere.')
     doc = {
         'property_id': prop, 'tier': tier, 'seed': seed, 'level': 'model_checking', 'wall_s': round(wall, 1),
         'violations': len(confirmed),
@@ -262,7 +267,7 @@ def main():
                            'values of the symbolic scalars, all forks of the stated structure.',
             'functions_encoded': fns, 'n_functions_encoded': len(fns),
             'mir': {f: {'items': len(p.items), 'lines': p.mir_lines, 'dump_s': round(p.dump_seconds, 1)} for f, p in progs.items()},
-            'spaces': space_rows, 'bounds': H.bounds_text(tier),
+            'spaces': space_rows, 'bounds': H.bounds_text(tier) + tmpl_note,
             'panic_samples': panic_samples[:4],
             'known_findings_hit': [{'clause': c, 'shape': s, 'paths': n} for (c, s), (_, _, n) in known_hits.items()],
             'model_native_mismatches': mismatches[:5], 'unsupported': [u[1] for u in unsupported[:3]],
